@@ -386,3 +386,35 @@ pub fn expect_text_program(ctx: &mut crate::drive::Ctx, rep: &mut Report, family
         }
     }
 }
+
+/// the same project through `build` of every package (dependencies first) and `link`
+pub fn run_text_separate(ctx: &mut crate::drive::Ctx, text: &str) -> Result<Obs, (String, String)> {
+    let mut parts = text.split("//// FILE ");
+    let mut files = vec![("main.gom".to_string(), parts.next().unwrap_or("").to_string())];
+    for part in parts {
+        let (rel, body) = part.split_once('\n').unwrap_or((part, ""));
+        files.push((rel.trim().to_string(), body.to_string()));
+    }
+    let proj = crate::projects::Project { name: "names".into(), files, expected_stdout: None };
+    let root = ctx.scratch.fresh_dir("names-sep");
+    let order: Vec<usize> = (0..proj.files.len()).collect();
+    crate::projects::materialize(&root, &proj, &order);
+    let pkgs = crate::projects::packages(&proj);
+    let Some(topo) = crate::projects::topo_orders(&pkgs).into_iter().next() else {
+        return Err(("machinery".into(), "no build order".into()));
+    };
+    let out = ctx.scratch.fresh_dir("names-out");
+    match crate::projects::separate(&root, &out, &pkgs, &topo, false).built {
+        crate::projects::Built::Ok { go } => {
+            let gr = analyse_and_run(go, FUEL);
+            match (&gr.verdict, &gr.run) {
+                (GoVerdict::Ok(_), Some(r)) => Ok(obs_of_go(r)),
+                (GoVerdict::Rejected(errs), _) => Err((format!("go.{}", errs[0].rule), format!("line {}: {}", errs[0].line, errs[0].msg))),
+                (GoVerdict::Unsupported(m), _) => Err(("machinery.go-unsupported".into(), m.clone())),
+                _ => Err(("machinery".into(), "no run".into())),
+            }
+        }
+        crate::projects::Built::Err { stage, messages } => Err((format!("rejected.{}", stage), messages.join("; "))),
+        crate::projects::Built::Panic(m) => Err(("compile.panic".into(), normalise_msg(&m))),
+    }
+}
